@@ -286,6 +286,11 @@ impl Generator
 	{
 		if let Some(&constant) = self.constants.get(&name.resolution_id)
 		{
+			// The constant may have been folded into poison (e.g. `1 / 0`).
+			if unsafe { LLVMIsAConstantInt(constant) }.is_null()
+			{
+				return None;
+			}
 			let v: u64 = unsafe { LLVMConstIntGetZExtValue(constant) };
 			v.try_into().ok()
 		}
